@@ -100,6 +100,16 @@ def run(tier, seed):
             rep.inconclusive.append("other-process job: %r" % (r,))
         else:
             rep.merge(r)
+    # kept functions whose results are tables (row labels kept from a selection, a named index, odd column names): the
+    # served result of the second evaluation and the loads equal what the function returns (the frame job of C04)
+    from checks import c04
+
+    fjobs = [(st, ["frame0", "frame1", "frame_labels", "frame_named_index", "frame_odd_names"]) for st in ("local", "local_lru")]
+    for j, r in zip(fjobs, core.fork_map(lambda a: c04.frame_job(a, prop="C01"), fjobs, timeout=900)):
+        if isinstance(r, core.JobFailed):
+            rep.inconclusive.append("frame job: %r" % (r,))
+        else:
+            rep.merge(r)
     rep.sample({"case": cases[0]["name"], "history": cases[0]["history"], "edit": cases[0]["edit_desc"].get("0->1"),
                 "entry_module_text": gen.render(cases[0]["versions"][0])[cases[0]["versions"][0]["pkg"] + "/top.py"][-600:]})
     rep.sample({"case": cases[-1]["name"], "history": cases[-1]["history"][:4]})
@@ -116,6 +126,11 @@ def replay(payload):
         from checks import c09
 
         rep.merge(c09.other_process_job(tuple(payload["case"]["other_process"])))
+        return rep
+    if payload["case"].get("frames"):
+        from checks import c04
+
+        rep.merge(c04.frame_job((payload["case"]["store"], payload["case"]["tags"]), prop="C01"))
         return rep
     case = payload["case"]["case"]
     obs = e1.run_case(case)
